@@ -1,7 +1,7 @@
 (* C03 -- A file's pointer (hash, size) depends only on its bytes and the salt.  Statements only. *)
 From Coq Require Import NArith Bool List.
 Import ListNotations.
-From XetModel Require Import Base.Codec Gen.ShardLayout Gen.DedupFacts Model.Merkle Model.Shard Model.Dedup Proofs.PipelineProofs Proofs.ResolveProofs Proofs.BytesProofs Proofs.PointerProofs.
+From XetModel Require Import Base.Codec Gen.ShardLayout Gen.DedupFacts Model.Blake3 Model.Merkle Model.Shard Model.Dedup Proofs.PipelineProofs Proofs.ResolveProofs Proofs.BytesProofs Proofs.PointerProofs Proofs.SaltProofs.
 Open Scope N_scope.
 
 From XetModel Require Import Gen.GearTable Gen.ChunkConsts Model.Chunker Proofs.ChunkerProofs Proofs.ChunkerLaws.
@@ -44,8 +44,26 @@ Theorem C03_pointer_size_is_bytes_fed : forall F U, StoreOk F U -> forall cf ext
   m_total_bytes (f_metrics (feed_blocks dedup_booked_before_decision cf ext (fd_with_registered R) blocks)) = sum_lens (concat blocks).
 Proof. exact file_total_bytes. Qed.
 
+(* "different salts give different hashes": the pointer hash of a non-empty file is the keyed hash, under the salt, of the
+   salt-free Merkle root of its chunks, so the same hash under two salts exhibits a collision of the keyed hash on that root
+   under the two keys; the empty file is the boundary (zero hash under every salt); with the real BLAKE3 a one-chunk file
+   under two salts computes to two hashes (the case seed C03-r4m1 breaks) *)
+Theorem C03_salted_hash_shape : forall chunks salt, chunks <> [] ->
+  file_node_hash chunks salt = option_map (fun r => keyed_hash salt r) (cas_node_hash compute_internal_node_hash chunks).
+Proof. exact salted_hash_shape. Qed.
+Theorem C03_same_hash_under_two_salts_is_a_collision : forall chunks s1 s2 h, chunks <> [] ->
+  file_node_hash chunks s1 = Some h -> file_node_hash chunks s2 = Some h ->
+  exists root, cas_node_hash compute_internal_node_hash chunks = Some root /\ keyed_hash s1 root = h /\ keyed_hash s2 root = h.
+Proof. exact same_hash_under_two_salts_is_a_collision. Qed.
+Theorem C03_empty_file_hash_ignores_the_salt : forall s1 s2, file_node_hash [] s1 = file_node_hash [] s2.
+Proof. exact empty_file_hash_ignores_the_salt. Qed.
+Example C03_two_salts_two_hashes : file_node_hash one_chunk salt_a <> file_node_hash one_chunk salt_b /\ file_node_hash one_chunk salt_a <> None.
+Proof. exact two_salts_two_hashes. Qed.
+
 Print Assumptions C03_fed_chunks_recorded.
 Print Assumptions C03_file_hash_function.
 Print Assumptions C03_pointer_hash_is_file_node_hash.
 Print Assumptions C03_pointer_hash_independent_of_split_store_and_limits.
 Print Assumptions C03_pointer_size_is_bytes_fed.
+Print Assumptions C03_same_hash_under_two_salts_is_a_collision.
+Print Assumptions C03_two_salts_two_hashes.
